@@ -21,7 +21,7 @@ def handle(job):
        "lr_sched": "none" if cfg["lrs"] == "const" else "lin8", "SF": cfg["SF"], "PF": cfg["PF"] if so == "shampoo" else cfg["SF"],
        "decay": dy(cfg["b2"]), "block_size": geo["block"], "merge_dims": geo["merge"], "rank": geo.get("rank", 2),
        "graft_eps": 1e-10, "sk_eps": geo.get("sk_eps", 1e-7), "sk_rel": geo.get("sk_rel", True),
-       "skip_rank1": True, "skip_dim_gt": geo.get("skip_dim_gt", 4096)}
+       "skip_rank1": True, "skip_dim_gt": geo.get("skip_dim_gt", 4096), "add_ggt": geo.get("add_ggt", False)}
   mism, worst = [], {"update": 0.0, "lr_linearity_ulps": 0.0}
   tol = 1e-9 if x64 else 1e-4
   try:
